@@ -157,6 +157,13 @@ func (cc *ClientConn) Authorize(access int) bool {
 func (cc *ClientConn) Disconnect() {
 	cc.Server.ClientMgr.Delete(cc.ID)
 
+	// A connection that never authenticated was never announced to the other users, so there is no
+	// departure to announce either.
+	if cc.Account == nil {
+		_ = cc.Connection.Close()
+		return
+	}
+
 	for _, t := range cc.NotifyOthers(NewTransaction(TranNotifyDeleteUser, [2]byte{}, NewField(FieldUserID, cc.ID[:]))) {
 		cc.Server.outbox <- t
 	}
